@@ -9,16 +9,18 @@ Proof. unfold f64_round. destruct (2 * r ?= den); try destruct (Z.odd q); lia. Q
 
 Lemma f64_quot_small a e : 0 < a <= 2 ^ 63 -> -53 <= e -> 0 <= fst (fst (f64_quot a 1 e)) <= 2 ^ 116.
 Proof.
-  intros Ha He. unfold f64_quot. cbn [fst snd].
+  intros Ha He. unfold f64_quot.
   destruct (Z.leb_spec 0 e) as [P|N].
   - assert (0 < 2 ^ e) by (apply Z.pow_pos_nonneg; lia).
-    split; [apply Z.div_pos; lia|].
-    apply Z.div_le_upper_bound; [lia|].
+    pose proof (Z.div_eucl_eq a (1 * 2 ^ e) ltac:(lia)) as Eq.
+    pose proof (Z.mod_pos_bound a (1 * 2 ^ e) ltac:(lia)) as Bd.
+    unfold Z.modulo in Bd. destruct (Z.div_eucl a (1 * 2 ^ e)) as [q r]. cbn [fst snd].
     assert (2 ^ 63 <= 2 ^ 116) by (apply Z.pow_le_mono_r; lia). nia.
-  - rewrite Z.div_1_r.
-    assert (0 < 2 ^ (- e)) by (apply Z.pow_pos_nonneg; lia).
+  - assert (0 < 2 ^ (- e)) by (apply Z.pow_pos_nonneg; lia).
     assert (2 ^ (- e) <= 2 ^ 53) by (apply Z.pow_le_mono_r; lia).
-    split; [nia|].
+    pose proof (Z.div_eucl_eq (a * 2 ^ (- e)) 1 ltac:(lia)) as Eq.
+    pose proof (Z.mod_pos_bound (a * 2 ^ (- e)) 1 ltac:(lia)) as Bd.
+    unfold Z.modulo in Bd. destruct (Z.div_eucl (a * 2 ^ (- e)) 1) as [q r]. cbn [fst snd].
     replace (2 ^ 116) with (2 ^ 63 * 2 ^ 53) by (rewrite <- Z.pow_add_r; [reflexivity|lia|lia]). nia.
 Qed.
 
@@ -40,8 +42,9 @@ Proof.
     assert (Ha : 0 < a <= 2 ^ 63) by (subst a; lia);
     pose proof (f64_exp_small a Ha) as He;
     assert (Hq : 0 <= fst (fst (f64_quot a 1 (f64_exp a 1))) <= 2 ^ 116) by (apply f64_quot_small; lia);
-    pose proof (f64_round_le (fst (fst (f64_quot a 1 (f64_exp a 1)))) (snd (fst (f64_quot a 1 (f64_exp a 1)))) (snd (f64_quot a 1 (f64_exp a 1)))) as Hr;
-    set (q' := f64_round _ _ _) in *;
+    destruct (f64_quot a 1 (f64_exp a 1)) as [[q r] den]; cbn [fst snd] in Hq;
+    pose proof (f64_round_le q r den) as Hr;
+    set (q' := f64_round q r den) in *;
     destruct (Z.leb_spec (2 ^ 1024) (q' * 2 ^ Z.max (f64_exp a 1) 0)) as [Ov|]; [|eexists; reflexivity];
     exfalso;
     assert (P1 : 0 < 2 ^ Z.max (f64_exp a 1) 0) by (apply Z.pow_pos_nonneg; lia);
